@@ -76,10 +76,13 @@ type Names struct {
 	Aliases   map[string]bool
 	CTEs      map[string]bool
 	Strings   map[string]bool
+	// names in positions no document classifies (CTE column lists, FOR UPDATE OF t): may or may not be extracted
+	MaybeColumns map[string]bool
+	MaybeTables  map[string]bool
 }
 
 func newNames() *Names {
-	return &Names{map[string]bool{}, map[string]bool{}, map[string]bool{}, map[string]bool{}, map[string]bool{}, map[string]bool{}}
+	return &Names{map[string]bool{}, map[string]bool{}, map[string]bool{}, map[string]bool{}, map[string]bool{}, map[string]bool{}, map[string]bool{}, map[string]bool{}}
 }
 
 // G carries generation state.
